@@ -221,3 +221,10 @@ func DeclLIA(v *Term) string {
 	n := quote(v.Name)
 	return fmt.Sprintf("(declare-fun %s () Int)\n(assert (and (<= %s %s) (<= %s %s)))", n, intLit(lo), n, n, intLit(hi))
 }
+
+// NonNegative reports whether the signed value of t is provably >= 0 (from variable ranges).
+func (l *LIA) NonNegative(t *Term) bool {
+	a := l.bv(t)
+	lo, hi := signedRange(t.W)
+	return a.ok && within(a.lo, a.hi, lo, hi) && a.lo.Sign() >= 0
+}
